@@ -612,6 +612,32 @@ func c19R7(ic *IC, r *Report) {
 				return true
 			})
 		}
+		// the other idiom: an earlier statement of an enclosing block leaves when the table is
+		// empty (if len(setup.lines) == 0 { continue })
+		for i := 0; i+1 < len(path); i++ {
+			blk, ok := path[i].(*ast.BlockStmt)
+			if !ok {
+				continue
+			}
+			for _, st := range blk.List {
+				if ast.Node(st) == path[i+1] {
+					break
+				}
+				ifs, ok := st.(*ast.IfStmt)
+				if !ok || len(ifs.Body.List) == 0 {
+					continue
+				}
+				switch ifs.Body.List[len(ifs.Body.List)-1].(type) {
+				case *ast.BranchStmt, *ast.ReturnStmt:
+					ast.Inspect(ifs.Cond, func(m ast.Node) bool {
+						if v := selFieldNode(ic.Info, m); v != nil && tables[v] {
+							tabs[v.Name()] = true
+						}
+						return true
+					})
+				}
+			}
+		}
 		key := joinSorted(tabs)
 		if key == "" {
 			key = "(no request table)"
@@ -1092,7 +1118,7 @@ func c19R11and12(ic *IC, r *Report) {
 }
 
 func init() {
-	ruleText["R19.13"] = "setting breakpoints generates no code: none of the functions reachable from the exported breakpoint entry points of the debugger (static call graph of package interp) is the code generator (setExec/getExec), and none calls through node.gen - the exec closures are generated by Execute once the global declarations are wired, from the entry points of the control flow graph"
+	ruleText["R19.13"] = "setting breakpoints generates no code from arbitrary nodes: among the functions reachable from the exported breakpoint entry points of the debugger (static call graph of package interp, the generation pass genRun that Execute itself starts with not expanded) none is the code generator (setExec/getExec) and none calls through node.gen - exec closures are generated from the entry points of the control flow graphs only"
 }
 
 // c19R13: found through the round-6 report on C19 (E1, E2). SetBreakpoints called getExec on
@@ -1117,7 +1143,22 @@ func c19R13(ic *IC, r *Report) {
 	}
 	sort.Slice(roots, func(i, j int) bool { return roots[i].Name() < roots[j].Name() })
 	for _, root := range roots {
+		// the generation pass Execute itself starts with (genRun: from the entry points of the control
+		// flow graphs) is the one way code may be generated here: it is not expanded
+		var genPass *types.Func
+		for f := range ic.G.Funcs {
+			if f.Name() == "genRun" {
+				genPass = f
+			}
+		}
+		saved := ic.G.Out[genPass]
+		if genPass != nil {
+			ic.G.Out[genPass] = nil
+		}
 		set, parent := ic.G.Reach(root)
+		if genPass != nil {
+			ic.G.Out[genPass] = saved
+		}
 		var bad []string
 		var fs []*types.Func
 		for f := range set {
